@@ -39,7 +39,8 @@ func NewSession(c *Client, state SMState) (*Session, error) {
 	}
 
 	if s.err != nil {
-		return nil, NewConnError(s.err, true)
+		// The stream features did not arrive (connection cut, garbage): nothing says the next attempt will fail too
+		return nil, NewConnError(s.err, false)
 	}
 
 	if !c.transport.IsSecure() {
